@@ -257,6 +257,9 @@ def run_shards(exe, outdir0, nshards, cases, seed, thorough=False, env_fn=None, 
                         pass
                 body += err
                 san = classify_sanitizer(body)
+                if san and san[0] == "ubsan" and re.search(r"/verif/harness/[\w/.]+:\d+:\d+: runtime error", body):
+                    raise Inconclusive("undefined behaviour inside the harness itself (harness bug, not a verdict): "
+                                       + _first_report(body))
                 if san:
                     key = "%s:%s:%s:%s" % (prop, san[0], san[1], san[2])
                     text = "sanitizer report in case %s: %s" % (where, _first_report(body))
